@@ -8,6 +8,7 @@
    the template references that bypass escaping. *)
 From Coq Require Import List String Ascii Bool Arith.
 Import ListNotations.
+From ClasticV Require Import Gen.MiscShape.
 From ClasticV Require Import Base.Py Base.Strs Model.Render Model.Meta Gen.MetaGen Proofs.MetaProofs.
 Local Open Scope list_scope.
 Local Open Scope string_scope.
@@ -49,3 +50,82 @@ Example C18_example :
     [("db", "'postgres://x'"); ("api_secret_key", "'hunter2'"); ("Secret", "'case matters (O11)'")] =
   [("db", "'postgres://x'"); ("api_secret_key", "[REDACTED]"); ("Secret", "'case matters (O11)'")].
 Proof. vm_compute. reflexivity. Qed.
+
+(* obligation on the source: the functions of meta.py behind the resource / middleware / route sections and the main page, statement by statement *)
+Theorem C18_meta_shape :
+  SK_META_TRUNC =
+  ["if len(str_val) > length";
+   "  if trailer";
+   "    str_val = str_val[:length - len(trailer)] + trailer";
+   "  else";
+   "    str_val = str_val[:length]";
+   "return str_val"] /\
+  SK_META_GET_RESOURCE_INFO =
+  ["ret = []";
+   "for (key, val) in _application.resources.items()";
+   "  if 'secret' in key";
+   "    trunc_val = '[REDACTED]'";
+   "  else";
+   "    trunc_val = _trunc(repr(val))";
+   "  ret.append({'key': key, 'value': trunc_val})";
+   "return ret"] /\
+  SK_META_GET_MW_INFOS =
+  ["ret = []";
+   "for mw in _application.middlewares";
+   "  cur = {}";
+   "  cur['type_name'] = mw.__class__.__name__";
+   "  cur['provides'] = mw.provides";
+   "  cur['requires'] = mw.requires";
+   "  cur['repr'] = repr(mw)";
+   "  ret.append(cur)";
+   "return ret"] /\
+  SK_META_GET_ROUTE_INFOS =
+  ["app = _application";
+   "ret = []";
+   "for r in app.routes";
+   "  if isinstance(r, NullRoute)";
+   "    continue";
+   "  r_info = {}";
+   "  r_info['url_pattern'] = r.pattern";
+   "  r_info['url_regex_pattern'] = r.regex.pattern";
+   "  r_info['endpoint'] = get_endpoint_info(r)";
+   "  r_info['render'] = get_render_info(r)";
+   "  r_info['args'] = get_route_arg_info(r)";
+   "  ret.append(r_info)";
+   "return ret"] /\
+  SK_RESOURCEPERIPHERAL_GET_CONTEXT =
+  ["return {'resources': get_resource_info(_application)}"] /\
+  SK_METAAPPLICATION_GET_MAIN =
+  ["full_ctx = {'page_title': self.page_title}";
+   "kwargs = {'request': request, '_route': _route, '_application': _application, '_meta_application': self, 'script_root': script_root}";
+   "for peri in self.peripherals";
+   "  try";
+   "    peri_ctx = inject(peri.get_context, kwargs)";
+   "  except Exception as e";
+   "    peri_ctx = {'exc_content': repr(e)}";
+   "  full_ctx.setdefault(peri.group_key, {}).update(peri_ctx)";
+   "return full_ctx"] /\
+  SK_METAAPPLICATION_RENDER_MAIN_PAGE_HTML =
+  ["context['sections'] = []";
+   "general_items = context['general'] = []";
+   "for peri in self.peripherals";
+   "  cur = {'title': peri.title, 'group_key': peri.group_key}";
+   "  try";
+   "    cur_context = context[peri.group_key]";
+   "    kwargs = {'context': cur_context}";
+   "    cur['content'] = inject(peri.render_main_page_html, kwargs)";
+   "    prev_exc = cur_context.get('exc_content')";
+   "    if prev_exc";
+   "      cur['exc_content'] = prev_exc";
+   "  except Exception as e";
+   "    cur['exc_content'] = repr(e)";
+   "  try";
+   "    cur_general_items = inject(peri.get_general_items, kwargs)";
+   "    cur_general_items = _process_items(cur_general_items)";
+   "  except Exception as e";
+   "    cur_general_items = []";
+   "  context['sections'].append(cur)";
+   "  general_items.extend(cur_general_items)";
+   "return self._main_page_render(context)"].
+Proof. repeat split; reflexivity. Qed.
+Print Assumptions C18_meta_shape.
